@@ -20,7 +20,6 @@ int LLVMFuzzerInitialize(int *argc, char ***argv)
   (void)argc;
   (void)argv;
   lg_profile          = "total";
-  lg_nodup_blank_rate = 0;
   lg_skip_mode_calls  = 0;
   lg_lean             = 1;
   if (ares_library_init_mem(ARES_LIB_INIT_ALL, lg_malloc, lg_free, lg_realloc) != ARES_SUCCESS) {
